@@ -313,7 +313,9 @@ impl<'tcx> Cx<'tcx> {
         }
         // structured constants (enums like Some(Equal), tuples, arrays, small structs, refs to those)
         let is_ref_to_struct = match ty.kind() {
-            ty::Ref(_, inner, _) => matches!(inner.kind(), ty::Adt(..) | ty::Tuple(..) | ty::Array(..)),
+            ty::Ref(_, inner, _) => {
+                matches!(inner.kind(), ty::Adt(..) | ty::Tuple(..) | ty::Array(..)) || inner.is_integral() || inner.is_bool() || inner.is_char()
+            }
             _ => false,
         };
         if matches!(ty.kind(), ty::Adt(..) | ty::Tuple(..) | ty::Array(..)) || is_ref_to_struct {
@@ -352,6 +354,37 @@ impl<'tcx> Cx<'tcx> {
         }
         let tj = self.ty(ty);
         if ty.is_integral() || ty.is_bool() || ty.is_char() {
+            if let ConstValue::Indirect { alloc_id, offset } = val {
+                // a scalar stored in a (promoted) allocation: read its little-endian bytes
+                if let Some(rustc_middle::mir::interpret::GlobalAlloc::Memory(alloc)) = tcx.try_get_global_alloc(alloc_id) {
+                    let nbytes: usize = match ty.kind() {
+                        ty::Bool => 1,
+                        ty::Char => 4,
+                        ty::Int(it) => it.bit_width().map(|b| (b / 8) as usize).unwrap_or(8),
+                        ty::Uint(ut) => ut.bit_width().map(|b| (b / 8) as usize).unwrap_or(8),
+                        _ => return None,
+                    };
+                    let a = alloc.inner();
+                    let o = offset.bytes() as usize;
+                    if o + nbytes > a.len() {
+                        return None;
+                    }
+                    let bytes = a.inspect_with_uninit_and_ptr_outside_interpreter(o..o + nbytes);
+                    let mut bits: u128 = 0;
+                    for (i, b) in bytes.iter().enumerate() {
+                        bits |= (*b as u128) << (8 * i);
+                    }
+                    let mut j = J::obj().with("ty", tj);
+                    if ty.is_signed() {
+                        let sh = 128 - 8 * nbytes as u32;
+                        j.set("int", J::Int(((bits << sh) as i128) >> sh));
+                    } else {
+                        j.set("int", J::UInt(bits));
+                    }
+                    return Some(j);
+                }
+                return None;
+            }
             let si = val.try_to_scalar_int()?;
             let size = si.size();
             let bits = si.to_bits(size);
